@@ -743,3 +743,45 @@ def raw_model(rules):
         nameid(n)
     defs = " ".join("(def %d %s)" % (nameid(n), elab(e, nameid)) for n, e in rules)
     return "(rg %s)" % defs, ids
+
+
+# ---------------------------------------------------------------- model grammar (sexp) -> Gallina term
+def sexp_to_coq(sx):
+    """sx: parsed model grammar sexp (list form from parse_sexp) -> Coq term of type grammar"""
+    def e(x):
+        h = x[0]
+        if h == "dot":
+            return "EDot"
+        if h == "c":
+            return "(EChar %s)" % x[1]
+        if h == "r":
+            return "(ERange %s %s)" % (x[1], x[2])
+        if h == "n":
+            return "(EName %s%%nat)" % x[1]
+        if h == "p":
+            return "(EPred %s%%nat)" % x[1]
+        if h == "s":
+            return "(EState %s%%nat)" % x[1]
+        if h == "a":
+            return "(EAct %s%%nat)" % x[1]
+        if h == "nil":
+            return "ENil"
+        if h in ("seq", "alt"):
+            return "(%s [%s])" % ("ESeq" if h == "seq" else "EAlt", "; ".join(e(y) for y in x[1:]))
+        one = {"and": "EAnd", "not": "ENot", "q": "EQuery", "star": "EStar", "plus": "EPlus", "push": "EPush"}
+        if h in one:
+            return "(%s %s)" % (one[h], e(x[1]))
+        if h == "sw":
+            cases = ["([%s], %s)" % ("; ".join(k for k in y[1]), e(y[2])) for y in x[1:] if y[0] == "case"]
+            d = [e(y[1]) for y in x[1:] if y[0] == "default"][0]
+            return "(ESwitch [%s] %s)" % ("; ".join(cases), d)
+        raise ValueError(h)
+    rules = []
+    for r in sx[1:]:
+        if r[0] == "B":
+            rules.append("RBody %s" % e(r[1]))
+        elif r[0] == "A":
+            rules.append("RAct %s%%nat" % r[1])
+        else:
+            rules.append("RNil")
+    return "[ " + ";\n  ".join(rules) + " ]"
